@@ -499,3 +499,17 @@ Theorem C01_glue2_rs_matches_model :
   (forall w a b, Glue.I_unchecked_sub w a b = I_checked_sub w a b).
 Proof. exact glue_addsub2_matches_model. Qed.
 Print Assumptions C01_glue2_rs_matches_model.
+(* ---- the SIGNED loop functions of /repo/src/bint/overflowing.rs (overflowing_add, overflowing_sub: N-1 unsigned digit
+   steps, then `carrying_add_signed` / `borrowing_sub_signed` on the top digits; overflowing_neg: complement-and-increment
+   with the early exit), regenerated on every run as Loops.I_*, compute exactly the model's I_* functions.
+   N > 0: `Self::N_MINUS_1 = N - 1` (a BInt<0> does not compile). ---- *)
+From Bnum.Proofs Require Import LoopsTieC01s.
+Theorem C01_loops_signed_rs_match_model w : 0 < w ->
+  (forall n a b fuel, (0 < n)%nat -> wf w n a -> wf w n b -> (n <= fuel)%nat ->
+     Loops.I_overflowing_add w (Z.of_nat n) fuel a b = Done (I_overflowing_add w a b)) /\
+  (forall n a b fuel, (0 < n)%nat -> wf w n a -> wf w n b -> (n <= fuel)%nat ->
+     Loops.I_overflowing_sub w (Z.of_nat n) fuel a b = Done (I_overflowing_sub w a b)) /\
+  (forall n a fuel, (0 < n)%nat -> wf w n a -> (n <= fuel)%nat ->
+     Loops.I_overflowing_neg w (Z.of_nat n) fuel a = Done (I_overflowing_neg w a)).
+Proof. exact (loops_C01s_match_model w). Qed.
+Print Assumptions C01_loops_signed_rs_match_model.
